@@ -130,6 +130,8 @@ def gen_task(g, prop, name, svc, allow_ramp, big=False):
     if t["op"] == "composite":
         t["requests"] = gen_composite(g, name, depth=0)
         t["max-connections"] = g.pick([None, None, 1, 2, 3])
+        if g.coin(0.35):
+            gen_leaf_faults(g, t["requests"], name)
     t["sim"] = plan
     return t
 
@@ -155,6 +157,39 @@ def gen_composite(g, task, depth, counter=None):
     return items
 
 
+LEAF_FAULTS = ["http-400", "http-500", "timeout", "conn-error", "http-503"]
+
+
+def safe_fault_leaves(items, out=None):
+    """leaves whose failure leaves no sibling stream running in the background: a failure in the sequential part of a level
+    cancels the streams of that level; a failure inside a stream is only collected by the parent's gather(), which does not
+    stop the other streams of that level"""
+    out = out if out is not None else []
+    streams = [it for it in items if "stream" in it]
+    for it in items:
+        if "stream" in it:
+            if len(streams) == 1:
+                safe_fault_leaves(it["stream"], out)
+        elif it["operation-type"] == "raw-request":
+            out.append(it)
+    return out
+
+
+def gen_leaf_faults(g, items, task):
+    """sub-requests that fail (the composite is aborted, the logical request still has a start and an end)"""
+    for leaf in composite_leaves(items).values():
+        if leaf["operation-type"] == "sleep":
+            # the instants of a sleep are only known from the timings of a successful composite
+            leaf.update({"operation-type": "raw-request", "path": f"/_c/{task}/{leaf['name']}", "method": "GET", "svc": leaf.pop("duration")})
+    cands = safe_fault_leaves(items)
+    for leaf in g.sample(cands, min(len(cands), g.pick([1, 1, 2]))):
+        kind = g.pick(LEAF_FAULTS)
+        first = g.pick([0, 0, 1, 2, 4])
+        # (a connection error that outlives the transport's retries is fatal whatever on-error says: at most two in a row)
+        run = 1 if kind in ("http-400", "http-500", "timeout") else (g.pick([1, 2]) if kind == "conn-error" else g.pick([1, 2, 4, 5]))
+        leaf["fault"] = {"kind": kind, "at": list(range(first, first + run))}
+
+
 def generate(prop, g, tier):
     svc = gen_service(g)
     big = tier == "thorough"
@@ -168,6 +203,9 @@ def generate(prop, g, tier):
         "rand": g.choose(1 << 30),
         "tie_window": g.pick([0, 0, 1e-4, 5e-3]),
     }
+    if g.coin(0.35):
+        # responses whose body is streamed: the last chunk arrives after the headers
+        cfg["body_delay"] = g.pick([0.0005, 0.01, 0.15, 0.6])
     # ramp-up applies to the whole parallel element and needs warm-up time periods >= ramp-up on every task
     if all("time-period" in t for t in tasks) and g.coin(0.4):
         ramp = g.pick([0.5, 1.0, 2.0])
@@ -196,7 +234,7 @@ def strip_svc(items):
         if "stream" in it:
             out.append({"stream": strip_svc(it["stream"])})
         else:
-            out.append({k: v for k, v in it.items() if k != "svc"})
+            out.append({k: v for k, v in it.items() if k not in ("svc", "fault")})
     return out
 
 
@@ -350,16 +388,30 @@ class LoadgenHarness(Harness):
             d = svc["base"]
             return d * svc["factor"] if svc_stream.coin(svc["p"]) else d
 
+        body_delay = cfg.get("body_delay", 0)
+        occurrences = {}
+
         def policy(w):
             parts = w.path.strip("/").split("/")
             d = draw_service()
+            bd = body_delay * svc_stream.choose(3) if body_delay else 0.0
             if parts[0] == "_c":
                 leaf = leaves[parts[1]][parts[2]]
                 if leaf.get("svc") is not None:
                     d = leaf["svc"] * (1 + svc_stream.choose(100) / 1000.0)
-                return Outcome(delay=d)
+                n = occurrences.get((w.client_id, w.path), 0)
+                occurrences[(w.client_id, w.path)] = n + 1
+                lf = leaf.get("fault")
+                if lf and n in lf["at"]:
+                    fired["composite-" + lf["kind"]] = fired.get("composite-" + lf["kind"], 0) + 1
+                    if lf["kind"] == "timeout":
+                        return Outcome(delay=d, kind="timeout")
+                    if lf["kind"] == "conn-error":
+                        return Outcome(delay=d, kind="conn-error")
+                    return Outcome(delay=d, kind="status", status=int(lf["kind"][5:]), body_delay=bd)
+                return Outcome(delay=d, body_delay=bd)
             if parts[0] != "_sim":
-                return Outcome(delay=d)
+                return Outcome(delay=d, body_delay=bd)
             task, seq = parts[1], parts[3]
             fault = (plans[task].get("faults") or {}).get(seq)
             n = attempts.get(w.path, 0)
@@ -368,30 +420,30 @@ class LoadgenHarness(Harness):
                 fired_kind = None
                 if fault.startswith("http-") and "x" not in fault:
                     fired_kind = fault
-                    out = Outcome(delay=d, kind="status", status=int(fault[5:]))
+                    out = Outcome(delay=d, kind="status", status=int(fault[5:]), body_delay=bd)
                 elif fault.startswith("http-503x"):
                     k = int(fault[9:])
                     if n < k:
                         fired_kind = "http-503-retried" if k <= 3 else "http-503-exhausted"
-                        out = Outcome(delay=d, kind="status", status=503)
+                        out = Outcome(delay=d, kind="status", status=503, body_delay=bd)
                     else:
-                        out = Outcome(delay=d)
+                        out = Outcome(delay=d, body_delay=bd)
                 elif fault == "connx2":
                     if n < 2:
                         fired_kind = "conn-error-retried"
                         out = Outcome(delay=d, kind="conn-error")
                     else:
-                        out = Outcome(delay=d)
+                        out = Outcome(delay=d, body_delay=bd)
                 elif fault == "timeout":
                     fired_kind = "timeout"
                     out = Outcome(delay=d, kind="timeout")
                 else:
                     fired_kind = "slow"
-                    out = Outcome(delay=min(d * 20, 30.0))
+                    out = Outcome(delay=min(d * 20, 30.0), body_delay=bd)
                 if fired_kind:
                     fired[fired_kind] = fired.get(fired_kind, 0) + 1
                 return out
-            return Outcome(delay=d)
+            return Outcome(delay=d, body_delay=bd)
 
         simes = SimES(clock, policy)
         violations = []
@@ -408,6 +460,7 @@ class LoadgenHarness(Harness):
             runner.register_runner("sim-op", SimRunner(), async_runner=True)
             track_params.register_param_source_for_name("sim-params", SimParamSource)
             sim = LoadSim(ch, clock)
+            obs.trace = sim.trace
             try:
                 track = sim.build_track(track_spec(cfg))
             except Exception as e:  # the generator produced an invalid track: a harness bug, not a violation
@@ -504,7 +557,8 @@ class LoadgenHarness(Harness):
                 if prop in ("C04", "C05"):
                     check_timings(prop, cfg, t, ci, client, h, ys, samples, reqs, tr, wires, proc, tol, bad, probes, plan)
                 if prop == "C18":
-                    check_contexts(cfg, t, client, samples, reqs, tr, wires, proc, tol, bad, probes, leaves.get(t["name"]))
+                    recs = [r for r in sim.trace.requests if session_client.get(r["session"]) == client]
+                    check_contexts(cfg, t, client, samples, reqs, tr, wires, proc, tol, bad, probes, leaves.get(t["name"]), ys=ys, recs=recs, marks=sim.sample_marks)
         if prop == "C04":
             nontrivial = probes["throttled_slow_request"] > 0
         elif prop == "C05":
@@ -807,8 +861,14 @@ def check_timings(prop, cfg, t, ci, client, h, ys, samples, reqs, tr, wires, pro
 # ---------------------------------------------------------------------------------------------
 # oracle: request contexts (C18)
 # ---------------------------------------------------------------------------------------------
-def check_contexts(cfg, t, client, samples, reqs, tr, wires, proc, tol, bad, probes, leaves):
+def check_contexts(cfg, t, client, samples, reqs, tr, wires, proc, tol, bad, probes, leaves, ys=None, recs=None, marks=None):
     ctx0 = f"task {t['name']} client {client}"
+    recs = recs or []
+    marks = marks or {}
+    path_leaf = {leaf["path"]: name for name, leaf in (leaves or {}).items() if leaf["operation-type"] == "raw-request"}
+    has_sleep = any(leaf["operation-type"] == "sleep" for leaf in (leaves or {}).values())
+    faulted = [leaf for leaf in (leaves or {}).values() if leaf.get("fault")]
+    safe = t["op"] != "composite" or all(any(l is f for l in safe_fault_leaves(t["requests"])) for f in faulted)
     for k, s in enumerate(samples):
         ctx = f"{ctx0} request {k}"
         req = reqs[k]
@@ -821,20 +881,25 @@ def check_contexts(cfg, t, client, samples, reqs, tr, wires, proc, tol, bad, pro
                 bad("request-span", "plain", f"{ctx}: recorded [{s.request_start}, {s.request_start + s.service_time}], its wire requests span [{rs}, {re}]")
                 return
             continue
-        # composite: k-th occurrence of every leaf path
+        # composite: the HTTP requests this client started between this turn of the schedule and the next one
+        lo_idx = ys[k][4]
+        hi_idx = ys[k + 1][4] if k + 1 < len(ys) else float("inf")
+        final_idx = marks.get(id(s), float("inf"))  # trace events that had happened when the sample was recorded
+        mine = [r for r in recs if lo_idx <= r["start_idx"] < hi_idx and r["path"] in path_leaf]
+        if not mine:
+            continue
         spans = {}
-        for name, leaf in leaves.items():
-            if leaf["operation-type"] != "raw-request":
-                continue
-            e = tr.get((client, leaf["path"]))
-            if not e or len(e["starts"]) <= k:
-                continue
-            st = e["starts"][k]
-            # ends: every wire request fires two 'end' events (request end, chunk received); take the k-th pair
-            en = e["ends"][2 * k : 2 * k + 2]
-            if not en:
-                continue
-            spans[name] = (st[1], max(x[1] for x in en))
+        for r in mine:
+            ends = [e for e in r["ends"] if e[2] < final_idx]
+            if not ends:
+                continue  # still in flight when the logical request ended (cancelled after a failure)
+            name = path_leaf[r["path"]]
+            a, b = r["start"][1], max(e[1] for e in ends)
+            if name in spans:  # the transport retried: the sub-request spans all attempts
+                a, b = min(a, spans[name][0]), max(b, spans[name][1])
+                probes["composite_retried_sub_request"] = 1
+            spans[name] = (a, b)
+        in_flight_starts = [r["start"][1] for r in mine if r["start_idx"] < final_idx]
         timings = {}
         for d in s._dependent_timing or []:
             if d is None:
@@ -842,14 +907,18 @@ def check_contexts(cfg, t, client, samples, reqs, tr, wires, proc, tol, bad, pro
             dt = d.get("dependent_timing")
             if dt:
                 timings[dt["operation"]] = dt
-        for name, (a, b) in spans.items():
-            dt = timings.get(name)
-            if dt is None:
-                bad("dependent-timing", "missing", f"{ctx}: no timing recorded for sub-request {name}")
-                return
-            if abs(dt["request_start"] - a) > 1e-9 or abs(dt["request_end"] - b) > 1e-9 or abs(dt["service_time"] - (b - a)) > 1e-9:
-                bad("dependent-timing", "span", f"{ctx}: sub-request {name} recorded [{dt['request_start']}, {dt['request_end']}], its wire request spans [{a}, {b}]")
-                return
+        failed = not s._dependent_timing
+        if failed:
+            probes["composite_failed_sub_request"] = 1
+        if not failed:
+            for name, (a, b) in spans.items():
+                dt = timings.get(name)
+                if dt is None:
+                    bad("dependent-timing", "missing", f"{ctx}: no timing recorded for sub-request {name}")
+                    return
+                if abs(dt["request_start"] - a) > 1e-9 or abs(dt["request_end"] - b) > 1e-9 or abs(dt["service_time"] - (b - a)) > 1e-9:
+                    bad("dependent-timing", "span", f"{ctx}: sub-request {name} recorded [{dt['request_start']}, {dt['request_end']}], its wire request spans [{a}, {b}]")
+                    return
         # sleeps are timed by the client hooks too; their instants come from the dependent timings themselves
         all_spans = list(spans.values())
         for name, leaf in leaves.items():
@@ -861,18 +930,28 @@ def check_contexts(cfg, t, client, samples, reqs, tr, wires, proc, tol, bad, pro
                 all_spans.append((dt["request_start"], dt["request_end"]))
         if not all_spans:
             continue
-        lo = min(a for a, _ in all_spans)
+        lo = min([a for a, _ in all_spans] + in_flight_starts)
         hi = max(b for _, b in all_spans)
         order_start = sorted(spans, key=lambda n: spans[n][0])
         order_end = sorted(spans, key=lambda n: spans[n][1])
         if order_start != order_end:
             probes["composite_out_of_order"] += 1
+        rec_end = s.request_start + s.service_time
+        if failed and (has_sleep or not safe):
+            # instants of sleeps are unknown without timings / streams that keep running in the background: bounds only
+            if s.request_start > lo + 1e-9:
+                bad("request-span", "start-not-earliest", f"{ctx}: failed composite request_start {s.request_start} is later than the earliest sub-request start {lo}")
+                return
+            if rec_end < hi - 1e-9 and safe:
+                bad("request-span", "end-not-latest", f"{ctx}: failed composite request_end {rec_end} is earlier than the latest sub-request end {hi} seen before the sample was recorded")
+                return
+            continue
         if abs(s.request_start - lo) > 1e-9:
             who = [n for n, (a, b) in spans.items() if abs(a - s.request_start) <= 1e-9]
-            bad("request-span", "start-not-earliest", f"{ctx}: composite request_start {s.request_start} is not the earliest sub-request start {lo} (it is the start of {who}); {len(all_spans)} sub-requests")
+            bad("request-span", "start-not-earliest", f"{ctx}: composite request_start {s.request_start} is not the earliest sub-request start {lo} (it is the start of {who}); {len(all_spans)} sub-requests" + ("; a sub-request failed" if failed else ""))
             return
-        if abs((s.request_start + s.service_time) - hi) > 1e-9:
-            bad("request-span", "end-not-latest", f"{ctx}: composite request_end {s.request_start + s.service_time} is not the latest sub-request end {hi}")
+        if abs(rec_end - hi) > 1e-9:
+            bad("request-span", "end-not-latest", f"{ctx}: composite request_end {rec_end} is not the latest sub-request end {hi}" + ("; a sub-request failed" if failed else ""))
             return
     # leakage between clients is covered by the equalities above: every recorded instant must be one of the client's own
 
